@@ -27,27 +27,28 @@ type OpKind uint8
 
 // Operation kinds.
 const (
-	OpStart   OpKind = iota // first instruction of a task
-	OpAtomic                // atomic load / store / read-modify-write
-	OpLock                  // Mutex.Lock
-	OpWLock1                // RWMutex.Lock, phase 1: take the writer gate, announce
-	OpWLock2                // RWMutex.Lock, phase 2: wait for readers to drain
-	OpRLock                 // RWMutex.RLock
-	OpWGWait                // WaitGroup.Wait
-	OpOnce                  // Once.Do
-	OpChan                  // before a channel send / receive / close
-	OpWake                  // after having been blocked in the runtime
-	OpSelect                // before a select
-	OpPool                  // sync.Pool Get / Put
-	OpGosched               // runtime.Gosched
-	OpYield                 // explicit yield from the harness
-	OpCond                  // Cond.Wait re-acquire
-	OpNet                   // simulated socket operation
-	OpQuiesce               // wait until every other task is idle
-	OpUnlock                // about to release a lock (still holding it)
+	OpStart     OpKind = iota // first instruction of a task
+	OpAtomic                  // atomic load / store / read-modify-write
+	OpLock                    // Mutex.Lock
+	OpWLock1                  // RWMutex.Lock, phase 1: take the writer gate, announce
+	OpWLock2                  // RWMutex.Lock, phase 2: wait for readers to drain
+	OpRLock                   // RWMutex.RLock
+	OpWGWait                  // WaitGroup.Wait
+	OpOnce                    // Once.Do
+	OpChan                    // before a channel send / receive / close
+	OpWake                    // after having been blocked in the runtime
+	OpSelect                  // before a select
+	OpPool                    // sync.Pool Get / Put
+	OpGosched                 // runtime.Gosched
+	OpYield                   // explicit yield from the harness
+	OpCond                    // Cond.Wait re-acquire
+	OpNet                     // simulated socket operation
+	OpQuiesce                 // wait until every other task is idle
+	OpUnlock                  // about to release a lock (still holding it)
+	OpChanClose               // before close(ch)
 )
 
-var opNames = [...]string{"start", "atomic", "lock", "wlock1", "wlock2", "rlock", "wgwait", "once", "chan", "wake", "select", "pool", "gosched", "yield", "cond", "net", "quiesce", "unlock"}
+var opNames = [...]string{"start", "atomic", "lock", "wlock1", "wlock2", "rlock", "wgwait", "once", "chan", "wake", "select", "pool", "gosched", "yield", "cond", "net", "quiesce", "unlock", "close"}
 
 func (k OpKind) String() string {
 	if int(k) < len(opNames) {
@@ -107,6 +108,8 @@ type Task struct {
 	reqCond *CondModel
 	killed  bool
 	exiting bool
+	watch   bool     // WatchEpilogue: record the kinds of the operations from now on
+	after   []OpKind // the operation the task was at when the watch began, and those after it
 	prio    int
 	Steps   int
 
@@ -136,19 +139,28 @@ func (s Strategy) String() string {
 
 // Config configures one run.
 type Config struct {
-	Strategy     Strategy
-	PStay        int             // sticky: percent chance to stay with the current task
-	PContention  int             // contention: percent chance to follow the last object
-	PCTDepth     int             // PCT: number of priority levels changes + 1
-	PCTHorizon   int             // PCT: change points are drawn from [0, horizon)
-	PAdvance     int             // per-mille chance to advance the clock although tasks are enabled
-	Quanta       []time.Duration // clock advance menu
-	MaxSteps     int             // soft cap; afterwards fair scheduling without clock preemption
-	MaxIdleAdv   int             // consecutive fruitless clock advances before declaring deadlock
-	VirtualCPUs  int             // what simruntime.GOMAXPROCS reports
-	Trace        bool            // keep a step trace
-	PoolDropPct  int             // simsync.Pool: percent chance that Get ignores a pooled object
-	PStall       int             // per-mille chance, at a scheduling decision, that the running task is stalled for a long stretch
+	Strategy    Strategy
+	PStay       int             // sticky: percent chance to stay with the current task
+	PContention int             // contention: percent chance to follow the last object
+	PCTDepth    int             // PCT: number of priority levels changes + 1
+	PCTHorizon  int             // PCT: change points are drawn from [0, horizon)
+	PAdvance    int             // per-mille chance to advance the clock although tasks are enabled
+	Quanta      []time.Duration // clock advance menu
+	MaxSteps    int             // soft cap; afterwards fair scheduling without clock preemption
+	// Progress, if set, returns a number that grows whenever the run does
+	// something the outside can see (an operation of the workload returns, the
+	// code under test calls a reporter or sends a datagram). Under the fair
+	// continuation a run is a livelock only when this stops growing.
+	Progress func() int
+	// Starved, if set, is asked now and then during the fair continuation whether
+	// some call is being kept from returning by work that keeps arriving (which
+	// looks like progress); a non-empty answer ends the run as a livelock.
+	Starved      func() string
+	MaxIdleAdv   int  // consecutive fruitless clock advances before declaring deadlock
+	VirtualCPUs  int  // what simruntime.GOMAXPROCS reports
+	Trace        bool // keep a step trace
+	PoolDropPct  int  // simsync.Pool: percent chance that Get ignores a pooled object
+	PStall       int  // per-mille chance, at a scheduling decision, that the running task is stalled for a long stretch
 	MaxTraceLen  int
 	DrainSteps   int
 	KillOnFinish bool
@@ -227,8 +239,21 @@ type Sim struct {
 
 	// Deadlock is set when no task could make progress.
 	Deadlock string
-	// Livelock is set when the step budget ran out even under fair scheduling.
+	// Livelock is set when, under fair scheduling, the run stopped making
+	// progress (or Cfg.Starved said so) for a whole step budget.
 	Livelock string
+	// Inconclusive is set when the run was cut off at the hard cap while still
+	// making progress: no verdict can be drawn from it.
+	Inconclusive string
+	fairDec      int // decisions taken under the fair continuation
+	fairStep0    int // s.step when the fair continuation began
+	progVal      int // last value of progress()
+	progDec      int // fairDec when it last changed
+	progStep     int // s.step when it last changed
+	ended        int // tasks that have ended (part of progress)
+	work         int // operations other than those of a spinning goroutine
+	workVal      int // s.work when it was last seen to change
+	workStep     int // s.step then
 	// Panics of tasks that were not recovered by the task's own code.
 	Panics []*Task
 }
@@ -320,6 +345,48 @@ func (s *Sim) LiveLibTasks() []*Task {
 		}
 	}
 	return out
+}
+
+// WatchEpilogue starts recording what the given tasks do from now on: the kind
+// of the operation each is parked at (or blocked in) and of every operation it
+// goes on to perform. The harness calls it at the instant a Close returns, for
+// the goroutines that are still alive then.
+//
+//go:norace
+func (s *Sim) WatchEpilogue(ts []*Task) []int {
+	from := make([]int, len(ts))
+	for i, t := range ts {
+		if !t.watch {
+			t.watch = true
+			t.after = AppendNR(t.after, t.reqKind)
+		}
+		// the last entry is the operation the task is parked at or blocked in now
+		from[i] = len(t.after) - 1
+	}
+	return from
+}
+
+// Epilogue returns what was recorded for the task from the given WatchEpilogue
+// call on and whether the task ended by itself (returned from its function;
+// was not torn down at the end of the run).
+func (t *Task) Epilogue(from int) ([]OpKind, bool) {
+	return t.after[from:], t.state == stDone && !t.killed
+}
+
+// OnlyReleases reports whether every operation in ops is one a goroutine that
+// has finished its work performs on its way out: releasing locks, atomics,
+// returning pooled objects, closing a channel. Anything that can wait for
+// another goroutine or that the outside can see (lock, channel send/receive,
+// select, WaitGroup.Wait, Once, socket) is not.
+func OnlyReleases(ops []OpKind) bool {
+	for _, k := range ops {
+		switch k {
+		case OpStart, OpAtomic, OpUnlock, OpPool, OpGosched, OpChanClose:
+		default:
+			return false
+		}
+	}
+	return true
 }
 
 // LiveLibDescendants returns the library tasks that are not done and that are
@@ -495,6 +562,7 @@ func (s *Sim) taskExit(t *Task) {
 	}
 	s.unregister(t)
 	s.live--
+	s.ended++
 	t.state = stDone
 }
 
@@ -570,6 +638,16 @@ func (s *Sim) park(kind OpKind, obj uintptr, mu *MutexModel, rw *RWModel, wg *WG
 	}
 	if t.exiting {
 		return
+	}
+	if t.watch && len(t.after) < 256 {
+		t.after = AppendNR(t.after, kind)
+	}
+	switch kind {
+	case OpAtomic, OpGosched, OpYield, OpQuiesce, OpChan, OpSelect:
+		// what a goroutine does while it spins; a channel operation or select
+		// that gets through counts itself (chan.go)
+	default:
+		s.work++
 	}
 	if s.live <= 1 && kind != OpQuiesce && kind != OpWake && mu == nil && rw == nil && wg == nil && once == nil && cond == nil {
 		// the only live task: there is no scheduling decision to make here.
@@ -1037,12 +1115,12 @@ func (s *Sim) Run(main func()) {
 		if len(s.elig) > 1 {
 			s.decisions++
 		}
-		if s.decisions >= s.Cfg.MaxSteps && !s.fair {
+		if (s.decisions >= s.Cfg.MaxSteps || s.step >= 30*s.Cfg.MaxSteps) && !s.fair {
 			s.fair = true
 			s.Stats.Truncated = true
+			s.fairStep0, s.progStep, s.workStep, s.progVal, s.workVal = s.step, s.step, s.step, s.progress(), s.work
 		}
-		if s.decisions >= 3*s.Cfg.MaxSteps || s.step >= 60*s.Cfg.MaxSteps {
-			s.Livelock = s.describeStuck()
+		if s.fair && s.fairVerdict(len(s.elig) > 1) {
 			break
 		}
 		n := s.pick()
@@ -1053,6 +1131,72 @@ func (s *Sim) Run(main func()) {
 		s.runStep(s.elig[n])
 	}
 	s.finish(mainTask)
+}
+
+// progress is what the outside can see: events of the harness's history (an
+// operation of the workload returns, a reporter call, a datagram) and tasks
+// that have ended.
+//
+//go:norace
+func (s *Sim) progress() int {
+	n := s.ended
+	if s.Cfg.Progress != nil {
+		n += s.Cfg.Progress()
+	}
+	return n
+}
+
+// fairVerdict is called before every step of the fair continuation and decides
+// whether the run ends here. Round-robin scheduling gives every runnable task
+// its turn, so whatever the run still has to do gets done if it is finite; the
+// question is how long to wait for it. Two clocks:
+//
+//   - nothing at all has happened for two step budgets of decisions (thirty of
+//     steps, when a single task is runnable and no decisions are made): no visible
+//     event and no operation other than what a goroutine does while it waits for
+//     another one by spinning (atomics, Gosched, selects that take their default,
+//     the harness's yields). Everybody who is runnable is spinning: a livelock.
+//   - somebody is busy (locks, channels, sockets) but nothing visible has come of
+//     it for three million steps. The code under test may spend many operations
+//     on one visible event - a 65 000 byte datagram written a byte at a time
+//     through a transport that takes three locks per write is about a million -
+//     so the bound is far beyond that: a loop that works without ever getting
+//     anywhere.
+//
+// Besides, the harness may know that a call is being starved by work that keeps
+// arriving (Cfg.Starved). A run that is still producing visible events at the
+// hard cap is cut off without a verdict.
+//
+//go:norace
+func (s *Sim) fairVerdict(decision bool) bool {
+	if decision {
+		s.fairDec++
+	}
+	if p := s.progress(); p != s.progVal {
+		s.progVal, s.progStep = p, s.step
+		s.workVal, s.progDec, s.workStep = s.work, s.fairDec, s.step
+	} else if s.work != s.workVal {
+		s.workVal, s.progDec, s.workStep = s.work, s.fairDec, s.step
+	}
+	m := s.Cfg.MaxSteps
+	switch {
+	case s.fairDec-s.progDec >= 2*m || s.step-s.workStep >= 30*m:
+		s.Livelock = s.describeStuck()
+		return true
+	case s.step-s.progStep >= 3000000:
+		s.Livelock = "(busy without any visible effect for 3000000 steps) " + s.describeStuck()
+		return true
+	case s.Cfg.Starved != nil && s.step%128 == 0:
+		if why := s.Cfg.Starved(); why != "" {
+			s.Livelock = why + " " + s.describeStuck()
+			return true
+		}
+	}
+	if s.step-s.fairStep0 >= 12000000 {
+		s.Inconclusive = s.describeStuck()
+		return true
+	}
+	return false
 }
 
 // pick returns the index into s.elig of the task to run, or -1 to advance the
@@ -1299,7 +1443,7 @@ func (s *Sim) finish(mainTask *Task) {
 	s.Stats.SimTime = time.Since(s.start)
 	s.finished = true
 	// bounded fair drain without clock movement
-	if len(s.Panics) == 0 && s.Deadlock == "" && s.Livelock == "" {
+	if len(s.Panics) == 0 && s.Deadlock == "" && s.Livelock == "" && s.Inconclusive == "" {
 		for i := 0; i < s.Cfg.DrainSteps; i++ {
 			synctest.Wait()
 			s.collect()
